@@ -16,9 +16,12 @@ import (
 	"hash"
 	"hash/fnv"
 	"os"
+	"runtime"
 	"runtime/debug"
 	"sort"
 	"strings"
+	"sync"
+	"sync/atomic"
 	"syscall"
 	"time"
 )
@@ -78,6 +81,7 @@ const (
 	stRunning
 	stBlocked
 	stDone
+	stNative // blocked on something the scheduler does not own (see runTask)
 )
 
 // Task is one caller thread or one process of the simulated world.
@@ -106,6 +110,9 @@ type Task struct {
 	CurOp      int // lens-maintained: index of the API operation being executed
 	FaultsSeen int // faults fired on this task so far
 	OnExit     func() // lens hook, runs on the task's goroutine when it ends (normally, by panic or by kill)
+
+	gid    uint64 // goroutine of the task
+	native bool   // blocked (or running again) outside the scheduler's control, see Sim.runTask
 }
 
 // Config configures one run.
@@ -154,6 +161,12 @@ type Sim struct {
 	StepCapped bool
 	Deadlocked bool
 	Switches   int
+	// native blocking (see runTask): tasks that wait on something the scheduler does not own
+	mu          sync.Mutex
+	byGID       map[uint64]*Task
+	natives     atomic.Int32
+	NativeSeen  int // how often a task was found blocked outside the scheduler's control
+	NativeStuck int // tasks still blocked that way when the run ended
 	// abstract trace hash: (role, op kind, fault kind) at scheduling points
 	ah hash.Hash64
 }
@@ -167,7 +180,7 @@ func New(cfg Config) *Sim {
 	if cfg.MaxSim == 0 {
 		cfg.MaxSim = 24 * time.Hour
 	}
-	return &Sim{cfg: cfg, sched: make(chan *Task), h: fnv.New64a(), ah: fnv.New64a(),
+	return &Sim{cfg: cfg, sched: make(chan *Task), h: fnv.New64a(), ah: fnv.New64a(), byGID: map[uint64]*Task{},
 		FaultsFired: map[string]int{}, Probes: map[string]int{}, faultUsed: make([]bool, len(cfg.Faults)), start: time.Now()}
 }
 
@@ -181,6 +194,10 @@ func (s *Sim) Go(role string, fn func()) *Task {
 }
 
 func (t *Task) main() {
+	t.gid = goid()
+	t.sim.mu.Lock()
+	t.sim.byGID[t.gid] = t
+	t.sim.mu.Unlock()
 	<-t.resume
 	defer func() {
 		if r := recover(); r != nil {
@@ -214,7 +231,51 @@ func (t *Task) closeFiles() {
 func (s *Sim) Tasks() []*Task { return s.tasks }
 
 // Current returns the running task (nil on the scheduler goroutine).
-func (s *Sim) Current() *Task { return s.cur }
+func (s *Sim) Current() *Task { return s.self() }
+
+// goid is the id of the calling goroutine (only used while some task is blocked natively).
+func goid() uint64 {
+	var buf [64]byte
+	n := runtime.Stack(buf[:], false)
+	// "goroutine 123 [running]:"
+	var id uint64
+	for _, c := range buf[len("goroutine "):n] {
+		if c < '0' || c > '9' {
+			break
+		}
+		id = id*10 + uint64(c-'0')
+	}
+	return id
+}
+
+// self is the task on whose goroutine the caller runs. Ordinarily that is the one task the scheduler has
+// resumed. A task that blocked on something the scheduler does not own (a channel, a WaitGroup, a timer of the
+// code under test) and was woken by another task's action runs on its own until its next call into this
+// package: here it hands itself back to the scheduler and waits for its turn like any parked task.
+func (s *Sim) self() *Task {
+	if s.natives.Load() == 0 {
+		return s.cur
+	}
+	g := goid()
+	s.mu.Lock()
+	t := s.byGID[g]
+	s.mu.Unlock()
+	if t == nil || !t.native || t == s.cur {
+		if t != nil {
+			return t
+		}
+		return s.cur
+	}
+	s.sched <- t // the scheduler notes the arrival (noteForeign): the task is parked from then on
+	<-t.resume
+	if t.killNext {
+		t.killNext = false
+		t.Dead = true
+		t.closeFiles()
+		panic(killSentinel{t.ID})
+	}
+	return t
+}
 
 // Seq returns the next global event sequence number (and consumes it).
 func (s *Sim) Seq() uint64 { s.seq++; return s.seq }
@@ -284,17 +345,24 @@ func errnoOf(kind string) error {
 // It panics with the kill sentinel if the plan crashes the task here.
 func Point(op Op) Decision {
 	s := Cur
-	if s == nil || s.cur == nil {
+	if s == nil || !s.inTask() {
 		return Decision{Prefix: -1}
 	}
 	return s.point(op)
 }
 
 // Active reports whether the caller is a simulated task (shim calls are intercepted).
-func Active() bool { return Cur != nil && Cur.cur != nil }
+func Active() bool { return Cur != nil && Cur.inTask() }
+
+// inTask: some task is running - the one the scheduler resumed, or one that was set aside as natively blocked and
+// may be running on its own again (self() sorts out which; nil = the scheduler's own goroutine).
+func (s *Sim) inTask() bool { return s.cur != nil || s.natives.Load() > 0 }
 
 func (s *Sim) point(op Op) Decision {
-	t := s.cur
+	t := s.self()
+	if t == nil {
+		return Decision{Prefix: -1}
+	}
 	if t.Dead {
 		return Decision{Err: ErrKilled, Prefix: -1}
 	}
@@ -384,10 +452,13 @@ func After(d Decision) {
 		return
 	}
 	s := Cur
-	if s == nil || s.cur == nil {
+	if s == nil || !s.inTask() {
 		return
 	}
-	t := s.cur
+	t := s.self()
+	if t == nil {
+		return
+	}
 	t.Dead = true
 	t.Crashed = true
 	t.closeFiles()
@@ -398,10 +469,10 @@ func After(d Decision) {
 // Yield is an explicit scheduling point without an operation.
 func Yield(what string) {
 	s := Cur
-	if s == nil || s.cur == nil {
+	if s == nil || !s.inTask() {
 		return
 	}
-	if s.cur.Dead {
+	if t := s.self(); t == nil || t.Dead {
 		return
 	}
 	s.point(Op{Kind: "yield", Aux: what})
@@ -412,10 +483,13 @@ func Yield(what string) {
 // if pred was true on wake-up.
 func WaitUntil(what string, pred func() bool, wakeAt time.Time) bool {
 	s := Cur
-	if s == nil || s.cur == nil {
+	if s == nil || !s.inTask() {
 		panic("rt.WaitUntil outside a task")
 	}
-	t := s.cur
+	t := s.self()
+	if t == nil {
+		panic("rt.WaitUntil outside a task")
+	}
 	if t.Dead {
 		return false
 	}
@@ -457,13 +531,17 @@ func (s *Sim) Kill(t *Task) {
 // TrackFile / UntrackFile record descriptors so that a killed task's files
 // are closed as the kernel would.
 func TrackFile(f *os.File) {
-	if s := Cur; s != nil && s.cur != nil {
-		s.cur.files[f] = struct{}{}
+	if s := Cur; s != nil && s.inTask() {
+		if t := s.self(); t != nil {
+			t.files[f] = struct{}{}
+		}
 	}
 }
 func UntrackFile(f *os.File) {
-	if s := Cur; s != nil && s.cur != nil {
-		delete(s.cur.files, f)
+	if s := Cur; s != nil && s.inTask() {
+		if t := s.self(); t != nil {
+			delete(t.files, f)
+		}
 	}
 }
 
@@ -484,6 +562,7 @@ func (t *Task) ready(now time.Time) bool {
 
 // Run is the scheduler loop. It returns when every task is done (or aborted).
 func (s *Sim) Run() {
+	defer func() { s.NativeStuck = int(s.natives.Load()) }()
 	for {
 		now := time.Now()
 		var runnable []*Task
@@ -506,6 +585,38 @@ func (s *Sim) Run() {
 						earliest = t.wakeAt
 					}
 				}
+			}
+			if s.natives.Load() > 0 {
+				// tasks set aside as natively blocked may be released by a timer of the code under test: wait for
+				// one of them to come back, or for the next wake instant of a task the scheduler owns, or - when
+				// nothing else can happen - for the end of simulated time (then they are stuck for good)
+				limit := s.start.Add(s.cfg.MaxSim).Sub(now)
+				if !earliest.IsZero() && earliest.Sub(now) < limit {
+					limit = earliest.Sub(now)
+				}
+				if limit < 0 {
+					limit = 0
+				}
+				tm := time.NewTimer(limit)
+				select {
+				case got := <-s.sched:
+					tm.Stop()
+					s.noteForeign(got)
+					continue
+				case <-tm.C:
+				}
+				if s.cfg.Settle != nil {
+					s.cfg.Settle()
+				}
+				if !earliest.IsZero() && earliest.Sub(s.start) <= s.cfg.MaxSim {
+					s.Log("clock", "", fmt.Sprint(earliest.Sub(s.start)), "")
+					continue
+				}
+				// stuck: nothing the scheduler owns can run, simulated time is used up
+				s.NativeStuck = int(s.natives.Load())
+				s.Deadlocked = true
+				s.abortAll()
+				return
 			}
 			if !alive {
 				return
@@ -564,8 +675,49 @@ func (s *Sim) runTask(t *Task) {
 	s.cur = t
 	s.last = t
 	t.resume <- struct{}{}
-	<-s.sched
+	for {
+		var got *Task
+		if s.cfg.Settle == nil {
+			got = <-s.sched
+		} else {
+			// Inside the bubble the clock moves only when every goroutine is durably blocked. If this timer fires
+			// before the task has come back, the task waits on something the scheduler does not own - a channel,
+			// a WaitGroup, a condition, a timer of the code under test - while the tasks that could release it
+			// are parked here. It is set aside (stNative); the others go on; once released it runs on its own up
+			// to its next call into this package, where self() hands it back.
+			tm := time.NewTimer(time.Nanosecond)
+			select {
+			case got = <-s.sched:
+				tm.Stop()
+			case <-tm.C:
+				t.state = stNative
+				t.native = true
+				s.natives.Add(1)
+				s.NativeSeen++
+				s.Log("native-block", "", fmt.Sprint(t.ID), "")
+				s.cur = nil
+				return
+			}
+		}
+		if got == t {
+			break
+		}
+		s.noteForeign(got)
+	}
 	s.cur = nil
+}
+
+// noteForeign records that a task which had been set aside as natively blocked has come back: it either parked
+// itself in self() (runnable from now on) or ran to its end.
+func (s *Sim) noteForeign(t *Task) {
+	if t != nil && t.native {
+		t.native = false
+		if t.state == stNative {
+			t.state = stParked
+		}
+		s.natives.Add(-1)
+		s.Log("native-return", "", fmt.Sprint(t.ID), "")
+	}
 }
 
 func (s *Sim) abortAll() {
